@@ -317,6 +317,10 @@ class OpenJDModel(BaseModel):
         for key, value in values.items():
             if isinstance(value, (set, frozenset)):
                 raise ValueError(f"{key}: a set has no order and cannot be used as a list of values.")
+            # pydantic also decodes bytes (a YAML '!!binary' scalar) where text or a number is expected
+            items = value if isinstance(value, (list, tuple)) else (value,)
+            if any(isinstance(item, (bytes, bytearray)) for item in items):
+                raise ValueError(f"{key}: binary data cannot be used as a text or number value.")
         return values
 
     @classmethod
